@@ -248,6 +248,9 @@ impl ThroughRows {
     }
 }
 impl Family for ThroughRows {
+    fn ambient(&self, idx: u64) -> u64 {
+        crate::engine::rot(idx)
+    }
     fn name(&self) -> String {
         "through-write_col".into()
     }
